@@ -306,8 +306,8 @@ func ruleLogShapes(c *eng.Ctx) {
 					}
 				}
 			})
-			above := eng.CmpEdges(fn, func(v ssa.Value) bool { _, isPhi := v.(*ssa.Phi); return isPhi }, call(cl+"findSegment"), eng.GT)
-			okDel = startsAtEnd && len(above) > 0 && eng.ExactCmp(fn, func(v ssa.Value) bool { _, isPhi := v.(*ssa.Phi); return isPhi }, call(cl+"findSegment"), eng.GT)
+			above, exact := aboveIndex(fn, func(v ssa.Value) bool { _, isPhi := v.(*ssa.Phi); return isPhi }, call(cl+"findSegment"))
+			okDel = startsAtEnd && len(above) > 0 && exact
 		}
 		c.Check(okDel, "Truncate drops every later segment", p.Pos(fn.Pos()), "the delete loop covers idx+1 … len-1 (from idx+1 upwards, or from len-1 down to idx+1)", "the loop deleting later segments does not cover exactly the segments after idx")
 	}
